@@ -59,7 +59,13 @@ def mk(c):
     A = sp.csc_matrix(np.array([[float(F(v)) for v in r] for r in c['A']], dtype=float).reshape(m, c['n']))
     b = np.array([float(F(v)) for v in c['b']], dtype=float)
     cc = np.array([float(F(v)) for v in c['c']], dtype=float)
-    K = [Cone(t, l) for t, l in c['K']]
+    if c.get('alias'):
+        # ONE Cone object per distinct (type, length), listed as often as it occurs (a cone list that is reused, e.g. X.K handed to
+        # several product-cone constraints): what is done to one occurrence must not leak into the others
+        objs = {}
+        K = [objs.setdefault((t, l), Cone(t, l)) for t, l in c['K']]
+    else:
+        K = [Cone(t, l) for t, l in c['K']]
     return cc, A, b, K
 
 
@@ -473,8 +479,11 @@ def rand_sys(rng, K, n=None, dens=0.6):
             return 0
         v = rng.choice([-3, -2, -1, 1, 2, 3, F(1, 2), F(-3, 4)])
         return frac_str(v) if isinstance(v, F) else v
-    return {'n': n, 'c': [rng.randint(-3, 3) for _ in range(n)], 'A': [[val() for _ in range(n)] for _ in range(m)],
-            'b': [rng.randint(-2, 2) for _ in range(m)], 'K': [list(k) for k in K]}
+    out = {'n': n, 'c': [rng.randint(-3, 3) for _ in range(n)], 'A': [[val() for _ in range(n)] for _ in range(m)],
+           'b': [rng.randint(-2, 2) for _ in range(m)], 'K': [list(k) for k in K]}
+    if len({tuple(k) for k in K}) < len(K) and rng.random() < 0.5:
+        out['alias'] = True
+    return out
 
 
 def cone_sequences(maxlen):
